@@ -217,12 +217,32 @@ class cstruct:
         Raises:
             ValueError: If the type already exists.
         """
-        if not replace and (name in self.typedefs and self.resolve(self.typedefs[name]) != self.resolve(type_)):
+        if not replace and name in self.typedefs and not self._same_type(self.typedefs[name], type_):
             raise ValueError(f"Duplicate type: {name}")
 
         self.typedefs[name] = type_
 
     addtype = add_type
+
+    def _same_type(self, a: type[BaseType] | str, b: type[BaseType] | str) -> bool:
+        """Whether two declarations name the same type.
+
+        Every declaration of an array or pointer type builds a new class, these are the same type when they are built
+        alike from the same type.
+        """
+        a, b = self.resolve(a), self.resolve(b)
+        if a == b:
+            return True
+        if issubclass(a, BaseArray) and issubclass(b, BaseArray):
+            counts = (a.num_entries, b.num_entries)
+            if all(isinstance(count, Expression) for count in counts):
+                same_count = counts[0].expression == counts[1].expression
+            else:
+                same_count = not any(isinstance(count, Expression) for count in counts) and counts[0] == counts[1]
+            return same_count and a.null_terminated == b.null_terminated and self._same_type(a.type, b.type)
+        if issubclass(a, Pointer) and issubclass(b, Pointer):
+            return self._same_type(a.type, b.type)
+        return False
 
     def add_custom_type(
         self, name: str, type_: type[BaseType], size: int | None = None, alignment: int | None = None, **kwargs
